@@ -44,3 +44,19 @@ def check_lists(parts, items):
     if sizes and max(sizes) - min(sizes) > 1:
         bad.append("unbalanced")
     return bad
+
+
+def check_blocks_arith(blocks, start, stop):
+    """The same clauses for ranges too long to enumerate: pure integer arithmetic."""
+    bad = []
+    sizes = [b[1] - b[0] for b in blocks]
+    if any(s < 0 for s in sizes):
+        bad.append("negative-block")
+    if blocks[0][0] != start or blocks[-1][1] != stop or \
+            any(blocks[i][1] != blocks[i + 1][0] for i in range(len(blocks) - 1)):
+        bad.append("union-differs")
+    if sum(sizes) != stop - start:
+        bad.append("total-length-differs")
+    if sizes and max(sizes) - min(sizes) > 1:
+        bad.append("unbalanced")
+    return bad
